@@ -19,7 +19,7 @@ a = ap.parse_args()
 rng = random.Random(a.seed)
 lines = []
 dist = collections.Counter()
-sizes_seen, lens_seen = collections.Counter(), collections.Counter()
+sizes_seen, lens_seen, fds_seen = collections.Counter(), collections.Counter(), collections.Counter()
 
 
 def hexs(bs):
@@ -29,10 +29,17 @@ def hexs(bs):
 class Hist:
     """one history; tracks the expected fill level `cur` of the terminal under test"""
 
-    def __init__(self, n, how, order):
+    def __init__(self, n, how, order, fds=None):
         self.n, self.how, self.cur, self.ctr = n, how, 0, rng.randrange(1, 250)
         self.alt, self.vis, self.started = False, True, how != "none"
-        self.ops = ["new %d %s %s" % (n, how, order)]
+        if how in ("fd", "both"):
+            fdm, fdr = fds if fds else pick_fds()
+            self.ops = ["new %d %s %s %d %d" % (n, how, order, fdm, fdr)]
+            fds_seen[fdm] += 1
+            dist["outfd_main_" + ("0" if fdm == 0 else "1" if fdm == 1 else "small" if fdm < 16 else "large")] += 1
+            if fdr == 0: dist["outfd_ref_0"] += 1
+        else:
+            self.ops = ["new %d %s %s" % (n, how, order)]
         sizes_seen[n if n <= 70 else (">70" if n <= 4096 else n)] += 1
         dist["new_" + how + "_" + order] += 1
 
@@ -170,6 +177,22 @@ class Hist:
         lines.extend(self.ops)
 
 
+FD_NUMBERS = [3, 4, 5, 6, 7, 8, 9, 10, 11, 12, 15, 16, 31, 32, 63, 64, 127, 128, 255, 256, 511, 512, 599]
+
+
+def pick_fds():
+    """descriptor numbers of the terminal under test and of the reference terminal: any number is a legitimate output
+    descriptor — 0 (what TICKIT_OPEN_STDTTY picks when stdin is the tty) and 1 (TICKIT_OPEN_STDIO) in particular; 2 is
+    left to the sanitizers' reports"""
+    c = rng.random()
+    fdm = 0 if c < 0.30 else 1 if c < 0.45 else rng.choice(FD_NUMBERS)
+    c = rng.random()
+    fdr = 0 if c < 0.15 else 1 if c < 0.25 else rng.choice(FD_NUMBERS)
+    while fdr == fdm:
+        fdr = rng.choice(FD_NUMBERS)
+    return fdm, fdr
+
+
 def pick_size():
     c = rng.random()
     if c < 0.12: return 0
@@ -239,14 +262,16 @@ def random_history():
 
 
 def exhaustive():
-    """every history of <= 3 writes of length 0..8, flush or not after each write, for n in 0..6, func and fd"""
+    """every history of <= 3 writes of length 0..8, flush or not after each write, for n in 0..6, func and fd (the
+    descriptor number cycling through 0, 1, 3, 7, 64, 255); and every such history of <= 2 writes on descriptor 0"""
     count = 0
+    cyc = [(0, 4), (1, 0), (3, 1), (7, 0), (64, 5), (255, 1)]
     for n in range(0, 7):
-        for how in ("func", "fd"):
-            for k in range(1, 4):
+        for how in ("func", "fd", "fd0"):
+            for k in range(1, 4 if how != "fd0" else 3):
                 for lens in itertools.product(range(0, 9), repeat=k):
                     for fl in itertools.product((0, 1), repeat=k):
-                        h = Hist(n, how, "late")
+                        h = Hist(n, how[:2] if how == "fd0" else how, "late", fds=(0, 3) if how == "fd0" else cyc[count % len(cyc)])
                         for L, f in zip(lens, fl):
                             h.op_write(L, quirk=False)
                             if f: h.op_flush()
@@ -257,7 +282,7 @@ def exhaustive():
 
 if a.tier == "exhaustive":
     nh = exhaustive()
-    bound = "every history of <= 3 writes of length 0..8 x every flush placement x buffer sizes 0..6 x {func, fd}"
+    bound = "every history of <= 3 writes of length 0..8 x every flush placement x buffer sizes 0..6 x {func, fd}; <= 2 writes x the same x descriptor number 0"
 else:
     nh = 700 if a.tier == "quick" else 4000
     nbig = 40 if a.tier == "quick" else 150
@@ -268,4 +293,5 @@ else:
 open(a.out, "w").write("\n".join(lines) + "\n")
 print(json.dumps({"ops": len(lines), "histories": nh, "mix": dict(sorted(dist.items())),
                   "buffer_sizes": {str(k): v for k, v in sorted(sizes_seen.items(), key=lambda kv: str(kv[0]))} if a.tier != "exhaustive" else "0..6",
+                  "output_descriptor_numbers": {str(k): v for k, v in sorted(fds_seen.items())} if a.tier != "exhaustive" else "0,1,3,7,64,255",
                   "request_lengths_distinct": len(lens_seen), "exhaustive_bound": bound}))
